@@ -158,7 +158,13 @@ def oracle_siqs(case, h, body):
         return None                     # no polynomial was handed to the sieve
     toks = body.split(" ")
     if toks[-1] == "panic":
-        return "panic while preparing polynomials (A=%s)" % h.get("a")
+        # forced (unrealistic) parameter combinations trip the size assertions of _finish_polynomial: no polynomial is
+        # handed to the sieve, which is not a statement about roots. With the driver's own parameters it is reported.
+        if case.args[2:5] == ["auto", "auto", "auto"]:
+            return "panic while preparing polynomials with the driver's own parameters (A=%s)" % h.get("a")
+        toks = toks[:-1]
+        if len(toks) < 8:
+            return None
     if toks[0] != "A":
         return "malformed answer"
     A = int(toks[1])
@@ -179,7 +185,7 @@ def oracle_siqs(case, h, body):
     i = 8
     seen = 0
     while i < len(toks):
-        if toks[i] != "P" or i + 8 >= len(toks) + 0 and i + 8 > len(toks):
+        if toks[i] != "P" or i + 8 >= len(toks):
             return "malformed polynomial record"
         idx, kind, B, C, root = (int(x) for x in toks[i + 1:i + 6])
         r1p, r2p = ints(toks[i + 6]), ints(toks[i + 7])
@@ -215,7 +221,7 @@ def oracle_siqs(case, h, body):
             m = root_set_msg(where, p, lambda t: P(t + so), lead, lin, const, r1, r2, superset_only=(p == 2))
             if m:
                 return m + f" (n={N})"
-    if seen == 0:
+    if seen == 0 and not body.endswith("panic"):
         return "no polynomial in the answer"
     return None
 
@@ -359,34 +365,42 @@ def nfactors(bits):
     return bits // 25
 
 
+def fb_auto(bits):
+    """params::factor_base_size (integer part only; used to keep forced sizes realistic)"""
+    if bits < 160:
+        return ((20 + bits % 20) << (bits // 20)) // 3
+    rt = math.isqrt(256 * bits)
+    return (12 + rt % 12) << (rt // 12 - 10)
+
+
 def siqs_cases(rng, tier, scale):
     maxbits = 200 if tier == "quick" else 400
+    sizes = [24, 32, 40, 48, 56, 64, 72, 80, 96, 110, 128, 150, 170, 200] + ([230, 260, 300, 330, 360, 400] if maxbits > 200 else [])
     for cls in (1, 3, 5, 7):
-        for j in range(6 * scale):
-            bits = rng.choice([24, 32, 40, 48, 56, 64, 72, 80, 96, 110, 128, 150, 170, 200] +
-                              ([230, 260, 300, 330, 360, 400] if maxbits > 200 else []))
-            bits = min(bits, maxbits)
+        for j in range(7 * scale):
+            bits = sizes[(j * 5 + cls) % len(sizes)] if j < len(sizes) else rng.choice(sizes)
             n = semiprime(rng, bits, cls)
             k = rng.choice(MULTS) if j % 3 == 2 else 1
             nb = (n * k).bit_length()
             nf_auto = nfactors(nb)
-            style = rng.randrange(6)
-            if style == 0:
+            style = rng.randrange(5)
+            if style <= 1 and nb <= 210:
+                # the parameters the real driver would use
                 fbs, nf, mm = "auto", "auto", "auto"
-                if nb > 150:
-                    fbs = rng.choice([600, 1000, 2000])
                 nfv = nf_auto
+                want = "auto" if nb <= 150 else 8
             else:
-                fbs = rng.choice([16, 24, 40, 80, 160, 400, 1000, 2000][:4 + min(4, nb // 30)])
-                nfv = max(1, min(12, nf_auto + rng.randint(-2, 2))) if style < 5 else rng.choice([1, 2, 3])
+                fa = max(16, min(fb_auto(nb), 6000 if tier == "quick" else 20000))
+                fbs = max(16, rng.choice([fa, fa, fa // 2, fa // 3, 2 * fa]))
+                nfv = max(2, min(14, nf_auto + rng.choice([-1, 0, 0, 1]))) if style < 4 else rng.choice([2, 2, 3])
                 if fbs <= 24:
-                    nfv = min(nfv, 3)
+                    nfv = min(nfv, 2)
                 elif fbs <= 80:
-                    nfv = min(nfv, 6)
+                    nfv = min(nfv, 3)
                 nf = nfv
-                mm = rng.choice([4096, 32768, 32768, 65536, 98304, 524288])
+                mm = rng.choice([16384, 32768, 32768, 65536, 98304, 524288]) if nb < 250 else rng.choice([262144, 524288])
+                want = rng.choice([1, 3, 8])
             step, tail, mx = walk_spec(nfv)
-            want = rng.choice([1, 3, 8])
             for aidx in range(1 if tier == "quick" and j % 2 else 3):
                 yield Case(f"siqs_walk {n} {k} {fbs} {nf} {mm} {want} {aidx} {step} {tail} {mx}", k=False, tag=f"k{k}")
     # A = 1 (the unit form used by the class group code): small n only
@@ -400,11 +414,13 @@ def siqs_cases(rng, tier, scale):
         yield Case(f"siqs_walk {n} {k} 80 3 32768 3 0 1 0 64", k=False, tag=f"k{k}")
 
 
-def d_primes_3mod4(lo, count):
+def d_primes_3mod4(lo, count, N=None):
+    """primes D = 3 mod 4 from lo on; with N: only those modulo which N is a non-zero square (the ones
+    sieve_for_polys keeps)"""
     out = []
     p = gen.next_prime(max(lo, 2) - 1)
     while len(out) < count:
-        if p % 4 == 3:
+        if p % 4 == 3 and (N is None or (N % p and pow(N, (p - 1) // 2, p) == 1)):
             out.append(p)
         p = gen.next_prime(p)
     return out
@@ -434,7 +450,7 @@ def mpqs_cases(rng, tier, scale):
             mm = rng.choice([32768, 65536, 131072])
             target = math.isqrt(math.isqrt(N >> 1 if N % 4 == 1 else N << 1) // (mm // 2))
             fbs = rng.choice([24, 80, 240, 800, 2000][:2 + min(3, bits // 50)])
-            for d in d_primes_3mod4(max(3, target - rng.randrange(50)), 40)[:: 5]:
+            for d in d_primes_3mod4(max(3, target - rng.randrange(50)), 8, N)[::2]:
                 yield Case(f"mpqs_poly {n} {k} {fbs} {mm} {d}", k=False, tag=f"k{k}")
     # tiny n, D inside the factor base: C of either sign
     small_d = [p for p in SMALL_PRIMES if p % 4 == 3] + d_primes_3mod4(200, 10)
@@ -442,10 +458,11 @@ def mpqs_cases(rng, tier, scale):
         bits = rng.choice([17, 18, 20, 22, 24, 27, 30, 34, 40])
         n = semiprime(rng, bits, rng.choice([1, 3, 5, 7]))
         k = rng.choice([1, 1, 3, 5, 2])
-        for d in rng.sample(small_d, 6):
+        ok = [d for d in small_d if d * d < n * k and n * k % d and pow(n * k, (d - 1) // 2, d) == 1]
+        for d in rng.sample(ok, min(4, len(ok))):
             yield Case(f"mpqs_poly {n} {k} {rng.choice([16, 40, 64])} 32768 {d}", k=False, tag="tiny")
     for n in (117298, 100003488, 47053, 1022117, 2445956099):
-        for d in small_d[:20]:
+        for d in [d for d in small_d if d * d < n and n % d and pow(n, (d - 1) // 2, d) == 1][:8]:
             yield Case(f"mpqs_poly {n} 1 40 32768 {d}", k=False, tag="tiny")
     # composite pseudo-squares
     for d in pseudo_square_ds():
@@ -474,7 +491,7 @@ def mpqs_outside(rng, scale):
     """make_poly called with D^2 > n: `n - h1*h1` underflows. The model predicts the checked profile."""
     for _ in range(6 * scale):
         n = semiprime(rng, rng.choice([17, 18, 20]), rng.choice([1, 3, 5, 7]))
-        for d in d_primes_3mod4(rng.choice([700, 1100, 3000]), 12)[::3]:
+        for d in d_primes_3mod4(rng.choice([700, 1100, 3000]), 4, n):
             yield Case(f"mpqs_poly {n} 1 24 32768 {d}", k=False, o=False, profiles=["chk"], tag="outside")
 
 
